@@ -176,6 +176,9 @@ PenFailing(r) ==
   LET f == {c \in Range(IF r.algo = "epa" THEN PenClausesEpa ELSE PenClausesMpr) : ~PenHolds(c, r)} IN
   IF f # {} /\ r.algo = "epa" /\ r.simplexRows < 4 /\ f \subseteq {"Minimal", "TouchAfterMTV", "SuccessOnPolytopes", "NoException"}
   THEN f \cup {"ZONE_IncompleteSimplex"}
+  ELSE IF f # {} /\ r.algo = "epa" /\ r.general /\ ~r.smooth /\ r.exc = "AssertionError" /\ r.simplexRows = 4
+            /\ f \subseteq {"NoException", "SuccessOnPolytopes"}
+       THEN f \cup {"ZONE_CapacityGeneral"}        \* fifth named pattern: polytope pair in general relative orientation, EPA's face capacity (64) overflows
   ELSE IF f = {"Minimal"} /\ r.algo = "epa" /\ r.exact
        THEN f \cup {"ZONE_SeparatingNotMinimal"}   \* fourth named pattern: the vector separates exactly (TouchAfterMTV holds) but is longer than the depth
   ELSE IF f # {} /\ r.algo = "mpr" /\ r.coincident /\ f \subseteq {"ContactInBoth"}
